@@ -1,1 +1,20 @@
-From SF Require Import Base.Prelude Properties.C02.
+(* Pinned statements of C02: re-checked on every run. *)
+From SF Require Import Base.Prelude Gen.Generated Unsized.Types Unsized.Parse Unsized.Machine Unsized.Ops Unsized.Proofs.EncodeParse Unsized.Proofs.Mem Unsized.Proofs.Notify Unsized.Proofs.Flat Properties.C02.
+
+Check (C02_flat_canonical_after_any_history :
+  forall ts h vs s top vs',
+    Rep ts vs s top -> m_refuse s <> 1 -> orun (m_cap s) ts vs h = Some vs' ->
+    exists s' top', mrun ts s top h = Ok (s', top') /\
+      ztake (m_len s') (m_mem s') = encode (TStruct ts) (VStruct vs') /\
+      m_len s' = byte_size (TStruct ts) (VStruct vs')).
+Check (C02_encode_size :
+ forall t v, wf t v = true -> zlen (encode t v) = byte_size t v).
+Check (C02_encode_injective :
+  forall t v v', ty_ok true t = true -> wf t v = true -> wf t v' = true -> encode t v = encode t v' -> v = v').
+Check (C02_any_reader_sees_the_value :
+  forall ovf t v, ty_ok true t = true -> wf t v = true -> parse ovf t (encode t v) = Ok (v, byte_size t v)).
+
+Print Assumptions C02_flat_canonical_after_any_history.
+Print Assumptions C02_encode_size.
+Print Assumptions C02_encode_injective.
+Print Assumptions C02_any_reader_sees_the_value.
